@@ -205,6 +205,9 @@ def r4(ctx):
     ctx.check("R4", sites[0].site, ok and not missing, "all six per-row fields, parent rows at the selection, in order",
               "; ".join(problems) or f"source {sorted(map(str, descr))}, missing {missing}")
     cn = sites[0].kw.get("control_treatment_name")
+    tenv = {k: v for k, v in single_defs(sites[0].f.node).items() if common.is_path(v)}
+    if cn is not None:
+        cn = inline(cn, tenv)
     ctx.check("R4", sites[0].site + "::control", cn is not None and U(cn) == "self.screen.control_treatment_name", "keeps the control name",
               f"control_treatment_name={U(cn) if cn is not None else None}")
     unique_filter(ctx, "R4")
